@@ -158,3 +158,24 @@ Theorem C01_honest_chunk_accepted : forall (K : Fld), FldOk K -> forall (M : Mod
     vadd M (msm (fst sc) (interleaveM K M (g_G g) (g_Hv g))) (msm (snd sc) (dyn_of K M (pts_of K M dec mb) ++ g_Gb g ++ [g_H g])) = v0 M.
 Proof. intros K Kok M Mok ofN toN OT enc dec DE g. exact (honest_chunk_accepted K Kok M Mok ofN toN OT enc dec DE g). Qed.
 Print Assumptions C01_honest_chunk_accepted.
+
+(** ... AND FOR WHOLE CHUNKS: any chunk of statement / proof pairs made by the code-shaped prover for valid witnesses over
+    one parameter set — mixed aggregation factors, promises, seeded or not, any order, ANY weights — passes every guard of
+    [verify_chunk] and the final product is the identity (also the "if" half of C03 on the executed model).  [hp_ok] collects,
+    per member, exactly the member-dependent premises of the one-member theorem above. *)
+From BP Require Import Proofs.HonestBatchTopP.
+Theorem C01_honest_chunk_of_many_accepted : forall (K : Fld), FldOk K -> forall (M : Mod K), ModOk K M ->
+  forall (ofN : N -> K) (toN : K -> N), (forall x, ofN (toN x) = x) ->
+  forall (enc : M -> N) (dec : N -> M), (forall p, dec (enc p) = p) ->
+  forall (g : gens K M) bits cap,
+  1 <= bits -> length (g_G g) = bits * cap -> length (g_Hv g) = bits * cap -> 1 <= length (g_Gb g) <= 6 ->
+  (2 * N.of_nat bits * N.of_nat cap < 2 ^ 64)%N -> enc (g_H g) <> 0%N -> Forall (fun q => enc q <> 0%N) (g_Gb g) ->
+  forall (h0 : hparams K) (hs : list (hparams K)) mode (ws : list K),
+  Forall (hp_ok K M enc g bits cap) (h0 :: hs) -> mode <> RecoverOnly ->
+  let ms := map (hmember K M toN enc g bits cap) (h0 :: hs) in
+  exists sc,
+    verify_chunk K ofN mode ms ws true = (Ok (map (mask_of K ofN mode) ms), Some sc) /\
+    vadd M (msm (fst sc) (interleaveM K M (g_G g) (g_Hv g)))
+           (msm (snd sc) (flat_map (dyn_of K M) (map (pts_of K M dec) ms) ++ g_Gb g ++ [g_H g])) = v0 M.
+Proof. intros K Kok M Mok ofN toN OT enc dec DE g bits cap. exact (honest_chunk_accepted_multi K Kok M Mok ofN toN OT enc dec DE g bits cap). Qed.
+Print Assumptions C01_honest_chunk_of_many_accepted.
